@@ -479,6 +479,17 @@ Theorem C07_mccs_size_symmetric :
 Proof. exact mccs_size_symmetric. Qed.
 Print Assumptions C07_mccs_size_symmetric.
 
+(** the intermediate value compared for every common-subgraph call — the NUMBER of GraphMatcher objects built — follows the search:
+    per subset size, [tries_in] reports success exactly when a candidate is found, counts at most one construction per subset and at
+    least one when it reports success (any VF2) *)
+Theorem C07_mccs_tries :
+  forall vf2b nm em larger smaller l,
+  (snd (tries_in vf2b nm em larger smaller l) = true <-> first_some (candidate vf2b nm em larger smaller) l <> None) /\
+  fst (tries_in vf2b nm em larger smaller l) <= length l /\
+  (snd (tries_in vf2b nm em larger smaller l) = true -> 1 <= fst (tries_in vf2b nm em larger smaller l)).
+Proof. exact tries_in_spec. Qed.
+Print Assumptions C07_mccs_tries.
+
 (** the boolean connectivity test the model evaluates (nx.is_connected on a non-empty candidate) is connectedness *)
 Theorem C07_connected_test :
   forall g, gwf g -> node_ids g <> [] -> (connected g = true <-> all_connected g).
